@@ -4,35 +4,44 @@
   Model: `Honeycomb/Model/Scene.lean` (`extract2`, `extract3`, shared core `extractWith` over a
   `Reader`), after `honeycomb-render/src/import_map.rs`.
 
-  PROVED (all for every map size; 2-D statements on `WF 3 m`, closed faces):
-  * `C20_vertex_entities`       one vertex entity per id of `iter_vertices`, in that order, and the
+  PROVED (for every map size; `sc` is the scene: `extract2 m = some sc`).  Hypotheses used, where
+  named: `WF 3 m` (C01's well-formedness), `ClosedFaces m` (every in-use dart has a β1 image),
+  `NoLoops m` (no face with a single side), `Embedded m` (every vertex id has coordinates).
+  * `C20_no_panic`               WF, ClosedFaces, NoLoops, Embedded ⇒ the start-up system does not panic
+                                 (`∃ sc, extract2 m = some sc`), so the clauses below are not vacuous
+  * `C20_vertex_entities`        one vertex entity per id of `iter_vertices`, in that order, and the
                                  table row stored in the entity holds the coordinates of that vertex
   * `C20_index_map_injective`,
     `C20_index_map_onto`         `index_map` is a bijection between the vertex ids and the table rows
   * `C20_table_row`              `table[index_map v] = ` the value of vertex `v`
-  * `C20_dart_start`             a dart entity carries `vertex_id(d)` and `start` is the row of that
-                                 vertex, which holds its coordinates
-  * `C20_dart_end`               `end` is the row of `vertex_id(β1 d)` (closed faces)
+  * `C20_dart_start`             a dart entity carries `vertex_id(d)`, `edge_id(d)`, a face id of
+                                 `iter_faces`, volume 1; `start` is the row of its vertex, which holds
+                                 that vertex' coordinates
+  * `C20_dart_end`               (WF, ClosedFaces) `end` is the row of `vertex_id(β1 d)`
   * `C20_edge_entity`            one edge entity per id of `iter_edges`; ends = rows of the vertices of
                                  the edge dart and of `β2 id` (`β1 id` when `id` is 2-free)
-  * `C20_face_corners`           one face entity per id of `iter_faces`; its corner list is the map of
-                                 `index_map ∘ vertex_id` over the β1-cycle `f, β1 f, β1² f, …` (no dart
-                                 repeated, closing back on `f`)
-  * `C20_dart_entities_of_face`  the dart entities are, face after face in `iter_faces` order, exactly
-                                 the darts of the β1-cycle of the face id, each once, tagged with that
-                                 face id
-  * `C20_each_dart_once`         every in-use dart has exactly one dart entity and no other dart has one
-  * `C20_no_panic`               on an embedded map with closed faces of at least two sides the
-                                 extraction does not panic
-  * `C20_3d_*`                   the dimension-independent clauses (vertex entities, table rows,
-                                 dart start, edge ends) for `extract3`
+  * `C20_face_corners`           (WF, ClosedFaces) one face entity per id of `iter_faces`; its corner
+                                 list is `index_map ∘ vertex_id` over the β1-cycle `f, β1 f, β1² f, …`
+                                 (`β1^k f = f`, the `k` darts distinct)
+  * `C20_dart_entities_of_face`  (WF, ClosedFaces) the dart entities are, face after face in
+                                 `iter_faces` order, exactly the darts of the β1-cycle of the face id,
+                                 each once, tagged with that face id
+  * `C20_each_dart_once`         (WF, ClosedFaces) every in-use dart has exactly one dart entity and no
+                                 other dart has one
+  * `C20_3d_vertex_entities`, `C20_3d_dart_start`, `C20_3d_edge_entity`, `C20_3d_face_entity`
+                                 the dimension-independent clauses for `extract3` (ids, table rows,
+                                 start, edge ends `β3` else `β2` else `β1`, corner rows along the
+                                 `Custom(&[1])` walk), conditional on `extract3 m = some sc`
+  The walk lemma `walk1_cycle` (the `Custom(&[1])` orbit of an in-use dart on a closed face is its
+  β1-cycle, closing back on the start) and C03's 2-D id theory carry the 2-D results.
 
   NOT PROVED (validated by tools/props/c20.py on the implementation, see SPEC["not_proved"]):
   * the normal *vectors* (`FaceNormals`, `VolumeNormals`) are finite unit vectors — glam `f32`
-    arithmetic is not modelled; only the keys are.  (They are NOT always finite: in 3-D a straight
-    corner gives NaN, finding D20a.)
-  * 3-D: dart `end`, corner order, the two-sided dart enumeration (second side from `β3 id`) and the
-    `VolumeNormals` keys — they need the walk lemma and the id theory for `orbit3` / `faceId3`.
+    arithmetic is not modelled; only the keys are (and those are compared, not proved).  The clause
+    is in fact FALSE in 3-D at straight corners (NaN; known finding D20a).
+  * 3-D: dart `end`, corner order = β1-cycle, the two-sided dart enumeration (second side from
+    `β3 id`; one entity per in-use dart), panic-freedom and the `VolumeNormals` keys — they need the
+    walk lemma and the id theory for `orbit3` / `faceId3` / `vertexId3` (C03 covers 2-D only).
 -/
 import Honeycomb.Model.Scene
 import Honeycomb.Props.C03
